@@ -1,8 +1,20 @@
+pub mod c01;
+pub mod c02;
+pub mod c03;
 pub mod c05;
+pub mod c10;
 pub mod c13;
+pub mod common;
 
 use crate::runner::{Erased, Wrap};
 
 pub fn all() -> Vec<Box<dyn Erased>> {
-    vec![Box::new(Wrap(c05::C05)), Box::new(Wrap(c13::C13))]
+    vec![
+        Box::new(Wrap(c01::C01)),
+        Box::new(Wrap(c02::C02)),
+        Box::new(Wrap(c03::C03)),
+        Box::new(Wrap(c05::C05)),
+        Box::new(Wrap(c10::C10)),
+        Box::new(Wrap(c13::C13)),
+    ]
 }
